@@ -9,6 +9,7 @@ import JSight.Rfc
 import JSight.SimTrailing
 import JSight.ErrPos
 import JSight.OMapOps
+import Driver.ShortTree
 import Driver.Common
 import Driver.Sem
 import Driver.SemN
@@ -272,6 +273,7 @@ def handle (line : String) : String :=
   | "cspec" :: _ => DCR.handle line
   | "bridge" :: r => DBridge.handle r
   | "c09b" :: r => DC09B.handle r
+  | "stree" :: _ => Drv.ShortTree.handle line
   | "ast" :: r => DMisc.ast r
   | "rgx" :: r => DMisc.rgx r
   | "c18r" :: r => DC18R.handle r
